@@ -5,15 +5,20 @@ from the documentation) against the real binary.  One mlr process classifies 10^
 one per record, through several observation channels at once:
     typeof($x), is_int/is_float/is_numeric/is_string/is_empty/is_not_empty, $x + 0,
     fmtnum($x,"%d"), fmtnum($x,"%.17le"), $x . ""         (one put)
-    asserting_*($x)                                        (one process per observed type)
-    sort -nf x                                             (one process)
+    asserting_*($x)                                        (one process per observed type, plus
+                                                            one single-record process per grammar
+                                                            category for the rejecting direction)
+    sort -nf x / sort -nr x, input forwards and reversed   (four processes)
+Every channel of the put reads ITS OWN copy of the text (the record carries the string in eleven
+fields), so that each function infers from a not-yet-inferred value.
 The channels are first checked for MUTUAL AGREEMENT (needs no model); then type and value are
 compared with the model (ints exactly, floats by bit pattern).
 
 Carriers: DKVP field (separators US/RS so that any byte of the alphabet can be in a value),
-quoted CSV field, JSON string, JSON number token, DSL literal.  Modes: default, -S, -A, -O.
+quoted and unquoted CSV field, TSV, NIDX, XTAB, PPRINT and markdown cells, JSON string, JSON number
+token at top level and nested in arrays / maps, DSL literal.  Modes: default, -S, -A, -O.
 
-Sub-monitors (--only): enum, near, boundary, dsl.
+Sub-monitors (--only): enum, struct, near, boundary, sortint, dsl.
 """
 import hashlib
 import itertools
@@ -30,17 +35,38 @@ LEVEL = "exploration"
 
 US, RS = "\x1f", "\x1e"
 
+SECONDARY = ("csv", "jsonstr", "jsonnum")
+MORE_CARRIERS = ("csvu", "tsv", "nidx", "xtab", "pprint", "markdown", "jsonnest")
+
 ALPHA31 = "0123456789+-.abcdefABCDEFxXoO_ "
 CORE20 = "01789+-.eExXobafF_ O"
 assert len(set(ALPHA31)) == 31 and len(set(CORE20)) == 20
 
-PROG = r'''
+PROG_TEMPLATE = r'''
 func enc(r) { t = typeof(r); if (t == "int") { return "i" . fmtnum(r, "%d") } elif (t == "float") { return "f" . fmtnum(r, "%.17le") } else { return t } }
 func b(v) { return v ? "1" : "0" }
-$* = {"n": NR, "t": typeof($x),
-  "f": b(is_int($x)) . b(is_float($x)) . b(is_numeric($x)) . b(is_string($x)) . b(is_empty($x)) . b(is_not_empty($x)),
-  "p": enc($x + 0), "d": fmtnum($x, "%d"), "e": fmtnum($x, "%.17le"), "c": $x . ""};
+$* = {"t": typeof(@A0),
+  "f": b(is_int(@A1)) . b(is_float(@A2)) . b(is_numeric(@A3)) . b(is_string(@A4)) . b(is_empty(@A5)) . b(is_not_empty(@A6)),
+  "p": enc(@A7 + 0), "d": fmtnum(@A8, "%d"), "e": fmtnum(@A9, "%.17le"), "c": @A10 . ""};
 '''
+
+NCOPIES = 11
+NAMES = list("abcdefghijk")
+ACCESSORS = {
+    None: ["$" + c for c in NAMES],
+    "nidx": ["$%d" % (i + 1) for i in range(NCOPIES)],
+    "jsonnest": ['$v[1]', '$v[2]', '$v[3]', '$v[4][1]', '$v[5]["y"]', '$v[6]["y"]["z"]',
+                 '$m["g"]', '$m["h"][1]', '$m["i"]["q"][2]', '$m["j"]', '$m["k"]'],
+}
+
+
+def prog_for(carrier):
+    acc = ACCESSORS.get(carrier, ACCESSORS[None])
+    p = PROG_TEMPLATE
+    for i in reversed(range(NCOPIES)):
+        p = p.replace("@A%d" % i, acc[i])
+    return p
+
 
 FLAGS_FOR_TYPE = {"int": "101001", "float": "011001", "string": "000101", "empty": "000110"}
 FLAG_NAMES = ["is_int", "is_float", "is_numeric", "is_string", "is_empty", "is_not_empty"]
@@ -111,26 +137,69 @@ def nontrivial(s):
 # carriers
 
 def input_for(carrier, strings):
-    """-> (argv input flags, stdin text)."""
+    """-> (argv input flags, stdin text). Every record carries the string NCOPIES times, one copy
+    per observation channel."""
+    n = NCOPIES
     if carrier == "dkvp":
         return (["--idkvp", "--ifs", "ascii_us", "--ips", "ascii_rs"],
-                "".join("x" + RS + s + "\n" for s in strings))
+                "".join(US.join(c + RS + s for c in NAMES) + "\n" for s in strings))
     if carrier == "csv":
-        return (["--icsv"], "x\n" + "".join('"' + s.replace('"', '""') + '"\n' for s in strings))
+        return (["--icsv"], ",".join(NAMES) + "\n" +
+                "".join(",".join(['"' + s.replace('"', '""') + '"'] * n) + "\n" for s in strings))
+    if carrier == "csvu":
+        return (["--icsv"], ",".join(NAMES) + "\n" + "".join(",".join([s] * n) + "\n" for s in strings))
+    if carrier == "tsv":
+        return (["--itsv"], "\t".join(NAMES) + "\n" + "".join("\t".join([s] * n) + "\n" for s in strings))
+    if carrier == "nidx":
+        return (["--inidx", "--ifs", " "], "".join(" ".join([s] * n) + "\n" for s in strings))
+    if carrier == "xtab":
+        return (["--ixtab"], "".join("".join(c + " " + s + "\n" for c in NAMES) + "\n" for s in strings))
+    if carrier == "pprint":
+        # a constant first column keeps a value from starting a line
+        return (["--ipprint"], "z " + " ".join(NAMES) + "\n" + "".join("r " + " ".join([s] * n) + "\n" for s in strings))
+    if carrier == "markdown":
+        return (["--imd"], "| " + " | ".join(NAMES) + " |\n" + "| " + " | ".join(["---"] * n) + " |\n" +
+                "".join("| " + " | ".join([s] * n) + " |\n" for s in strings))
     if carrier == "jsonstr":
-        return (["--ijson"], "".join('{"x": ' + json.dumps(s, ensure_ascii=False) + "}\n" for s in strings))
+        return (["--ijson"], "".join("{" + ", ".join('"%s": %s' % (c, json.dumps(s, ensure_ascii=False)) for c in NAMES) + "}\n"
+                                     for s in strings))
     if carrier == "jsonnum":
-        return (["--ijson"], "".join('{"x": ' + s + "}\n" for s in strings))
+        return (["--ijson"], "".join("{" + ", ".join('"%s": %s' % (c, s) for c in NAMES) + "}\n" for s in strings))
+    if carrier == "jsonnest":
+        # number tokens inside arrays and nested maps (see ACCESSORS["jsonnest"])
+        return (["--ijson"], "".join(
+            '{"v": [%s, %s, %s, [%s], {"y": %s}, {"y": {"z": %s}}], '
+            '"m": {"g": %s, "h": [%s], "i": {"q": [0, %s]}, "j": %s, "k": %s}}\n' % ((s,) * n) for s in strings))
     raise KeyError(carrier)
 
 
+LINE_BREAKS = ("\r", "\n")
+
+
 def carrier_ok(carrier, s):
-    if carrier == "jsonnum":
+    if carrier in ("jsonnum", "jsonnest"):
         return G.is_json_number(s)
+    if any(c in s for c in LINE_BREAKS):
+        return False                                # C01 owns embedded line breaks
     if carrier == "dkvp":
-        return not any(c in s for c in (US, RS, "\n", "\r"))
+        return not any(c in s for c in (US, RS))
     if carrier == "csv":
-        return "\r" not in s and "\n" not in s      # C01 owns embedded line breaks
+        return True
+    if carrier == "csvu":
+        # unquoted cells: no separator / quote; C01 owns what a bare cell with those means
+        return not any(c in s for c in (",", '"'))
+    if carrier == "tsv":
+        return not any(c in s for c in ("\t", "\\"))
+    if carrier == "nidx":
+        return s != "" and not any(c in s for c in (" ", "\t"))
+    if carrier == "pprint":
+        # a lone "-" is PPRINT's own marker for an empty cell (format encoding, C01's subject)
+        return s not in ("", "-") and not any(c in s for c in (" ", "\t", "|"))
+    if carrier == "xtab":
+        return s != "" and s == s.strip(" \t")
+    if carrier == "markdown":
+        # a row whose cells are made of - and : only is markdown's alignment row, not data
+        return s != "" and s == s.strip(" \t") and "|" not in s and s.strip("-:") != ""
     if carrier == "jsonstr":
         try:
             s.encode("utf-8")
@@ -197,7 +266,7 @@ def replay_detail(argv, s, carrier, exp, got):
 
 def observe(strings, mode, carrier):
     iflags, stdin = input_for(carrier, strings)
-    argv = G.MODE_FLAGS[mode] + iflags + OSEP + ["put", PROG]
+    argv = G.MODE_FLAGS[mode] + iflags + OSEP + ["put", prog_for(carrier)]
     r = R.mlr(argv, stdin=stdin, cpu_s=60, watchdog=180.0, fsize=256 << 20, out_cap=256 << 20)
     return argv, r
 
@@ -207,16 +276,20 @@ def judge_batch(strings, mode, carrier, res, tally, want_sort=False, want_assert
     or None when the process itself failed."""
     argv, r = observe(strings, mode, carrier)
     base_sig = {"mode": mode, "carrier": carrier}
-    if r.verdict in ("slow", "deadlock"):
+    if r.verdict == "slow":
         res["inconc"] += len(strings)
         return None
     if not r.ok:
-        kind = "crash" if r.crashed() else "abort"
+        hang = r.verdict in HANG_VERDICTS
+        kind = "hang" if hang else ("crash" if r.crashed() else "abort")
         # localise: bisect to one string
         bad = bisect_failure(strings, mode, carrier)
+        if bad is None and hang:
+            res["inconc"] += len(strings)          # a stall that no half of the batch reproduces
+            return None
         tally.add(dict(base_sig, kind=kind, tag=(G.classify(bad, mode)[1] if bad is not None else "?")),
-                  f"mlr {' '.join(G.MODE_FLAGS[mode])} dies reading the {carrier} value {bad!r}: "
-                  f"{(r.err.strip().splitlines() or ['rc=%s' % r.rc])[0][:200]}",
+                  f"mlr {' '.join(G.MODE_FLAGS[mode])} {'hangs (' + r.verdict + ')' if hang else 'dies'} reading the "
+                  f"{carrier} value {bad!r}: {(r.err.strip().splitlines() or ['rc=%s' % r.rc])[0][:200]}",
                   replay_detail(argv, bad if bad is not None else strings[0], carrier, [], r.brief(300)))
         return None
     rows = parse_out(r.out)
@@ -225,10 +298,12 @@ def judge_batch(strings, mode, carrier, res, tally, want_sort=False, want_assert
                   f"{len(strings)} {carrier} records in, {len(rows)} out", {"argv": argv, "n_in": len(strings)})
         return None
     obs = []
+    tags = []
     for s, o in zip(strings, rows):
         t = o.get("t", "?")
         exp, tag = expected(s, mode, carrier)
         bump(res, "tag:" + tag)
+        tags.append(tag)
         val = None
         bad_channel = None
         # ---- channel agreement ----
@@ -296,9 +371,9 @@ def judge_batch(strings, mode, carrier, res, tally, want_sort=False, want_assert
                       replay_detail(argv, s, carrier, exp, o))
         obs.append(got)
     if want_assert:
-        assert_channel(strings, obs, mode, res, tally)
+        assert_channel(strings, obs, tags, mode, res, tally)
     if want_sort:
-        sort_channel(strings, obs, mode, res, tally)
+        sort_channel(strings, obs, mode, res, tally, lite=(want_sort == "lite"))
     return obs
 
 
@@ -310,18 +385,24 @@ def render(o):
     return o[0]
 
 
+HANG_VERDICTS = ("deadlock", "cpu", "output-cap")
+
+
 def bisect_failure(strings, mode, carrier):
+    """The one string of a failing batch that fails on its own (None when no half reproduces)."""
     idx = list(strings)
     guard = 0
     while len(idx) > 1 and guard < 40:
         guard += 1
         mid = len(idx) // 2
         _, r = observe(idx[:mid], mode, carrier)
+        if r.verdict == "slow":
+            return None
         if not r.ok:
             idx = idx[:mid]
         else:
             _, r2 = observe(idx[mid:], mode, carrier)
-            if r2.ok:
+            if r2.ok or r2.verdict == "slow":
                 return None           # not reproducible on halves
             idx = idx[mid:]
     return idx[0] if idx else None
@@ -336,78 +417,139 @@ NEG_ASSERTS = {"int": ["asserting_float", "asserting_string"], "float": ["assert
                "empty": ["asserting_not_empty", "asserting_int"]}
 
 
-def assert_channel(strings, obs, mode, res, tally):
+NEG_PER_CLASS = 25
+
+
+def assert_channel(strings, obs, tags, mode, res, tally):
     """asserting_* must pass on every value typeof puts in the class (one process per class) and
-    abort on values of another class (a few single-record processes)."""
+    abort on values of another class: one representative per (observed class, grammar category),
+    one single-record process per (representative, excluded assertion)."""
     groups = {}
-    for s, o in zip(strings, obs):
-        groups.setdefault(o[0], []).append(s)
-    for t, ss in groups.items():
+    for s, o, tag in zip(strings, obs, tags):
+        groups.setdefault(o[0], {}).setdefault(tag, []).append(s)
+    for t, by_tag in groups.items():
         if t not in ASSERTS:
             continue
+        ss = [s for g in by_tag.values() for s in g]
         iflags, stdin = input_for("dkvp", ss)
-        prog = "; ".join(f"{a}($x)" for a in ASSERTS[t])
+        prog = "; ".join(f"{a}(${NAMES[i % NCOPIES]})" for i, a in enumerate(ASSERTS[t]))
         argv = G.MODE_FLAGS[mode] + iflags + ["put", "-q", prog]
         r = R.mlr(argv, stdin=stdin, cpu_s=60)
         bump(res, "asserting_values_checked", len(ss))
-        if not r.ok:
-            tally.add({"kind": "channels-disagree", "channel": "asserting", "mode": mode, "carrier": "dkvp", "tag": t},
-                      f"[{mode}] typeof says {t} for {len(ss)} values but {prog} aborts: "
+        if r.verdict == "slow":
+            res["inconc"] += 1
+        elif not r.ok:
+            tally.add({"kind": "hang" if r.verdict in HANG_VERDICTS else "channels-disagree", "channel": "asserting",
+                       "mode": mode, "carrier": "dkvp", "tag": t},
+                      f"[{mode}] typeof says {t} for {len(ss)} values but {prog} "
+                      f"{'hangs' if r.verdict in HANG_VERDICTS else 'aborts'}: "
                       f"{(r.err.strip().splitlines() or ['?'])[0][:200]}",
                       {"argv": argv, "stdin": stdin[:2000], "got": r.brief(400)})
-        for a in NEG_ASSERTS[t]:
-            s = ss[len(ss) // 2]
-            iflags, stdin = input_for("dkvp", [s])
-            argv = G.MODE_FLAGS[mode] + iflags + ["put", "-q", f"{a}($x)"]
-            r = R.mlr(argv, stdin=stdin, cpu_s=20)
-            bump(res, "asserting_negative_checks")
-            if r.ok:
-                tally.add({"kind": "channels-disagree", "channel": "asserting-negative", "mode": mode,
-                           "carrier": "dkvp", "tag": t},
-                          f"[{mode}] typeof says {t} for {s!r} but {a}($x) passes",
-                          {"argv": argv, "stdin": stdin, "got": r.brief(400)})
+        reps = [(tag, g[len(g) // 2]) for tag, g in sorted(by_tag.items())][:NEG_PER_CLASS]
+        for tag, s in reps:
+            for a in NEG_ASSERTS[t]:
+                iflags, stdin = input_for("dkvp", [s])
+                argv = G.MODE_FLAGS[mode] + iflags + ["put", "-q", f"{a}($a)"]
+                r = R.mlr(argv, stdin=stdin, cpu_s=20)
+                bump(res, "asserting_negative_checks")
+                if r.verdict == "slow":
+                    res["inconc"] += 1
+                elif r.ok or r.verdict in HANG_VERDICTS or r.crashed():
+                    how = "passes" if r.ok else ("hangs" if r.verdict in HANG_VERDICTS else "crashes")
+                    tally.add({"kind": "channels-disagree" if r.ok else ("hang" if how == "hangs" else "crash"),
+                               "channel": "asserting-negative", "mode": mode, "carrier": "dkvp", "tag": t,
+                               "gtag": tag, "fn": a},
+                              f"[{mode}] typeof says {t} for {s!r} ({tag}) but {a}($a) {how}",
+                              {"argv": argv, "stdin": stdin, "got": r.brief(400)})
 
 
-def sort_channel(strings, obs, mode, res, tally):
+def num_gt(a, b):
+    """a > b for two observed numbers: exactly when both are ints, as doubles otherwise."""
+    if a[0] == "int" and b[0] == "int":
+        return a[1] > b[1]
+    return float(a[1]) > float(b[1])
+
+
+SORT_VARIANTS = (("-nf", False), ("-nr", True), ("-nr", False), ("-nf", True))
+
+
+def sort_channel(strings, obs, mode, res, tally, lite=False):
     """sort -nf must place exactly the values typeof calls int/float first, in non-decreasing
-    numerical order (compared as doubles), and everything else after them."""
-    stdin = "".join("n" + RS + str(i) + US + "x" + RS + s + "\n" for i, s in enumerate(strings))
-    argv = G.MODE_FLAGS[mode] + ["--idkvp", "--ifs", "ascii_us", "--ips", "ascii_rs"] + OSEP + \
-        ["sort", "-nf", "x", "then", "cut", "-f", "n"]
-    r = R.mlr(argv, stdin=stdin, cpu_s=60, watchdog=180.0)
-    if r.verdict in ("slow", "deadlock"):
-        res["inconc"] += 1
-        return
-    sig = {"kind": "channels-disagree", "channel": "sort-nf", "mode": mode, "carrier": "dkvp"}
-    try:
-        order = [int(l.partition(RS)[2]) for l in r.out.split("\n") if l]
-    except ValueError:
-        order = None
-    if not r.ok or order is None or sorted(order) != list(range(len(strings))):
-        tally.add(dict(sig, tag="not-a-permutation"), f"[{mode}] sort -nf x did not return a permutation of its input",
-                  {"argv": argv, "got": r.brief(400)})
-        return
+    numerical order, and everything else after them; sort -nr is the mirror image (non-numbers
+    first, numbers non-increasing).  Two ints are compared EXACTLY (they are distinct ints for typeof
+    and arithmetic however close they are), an int and a float or two floats as doubles.  Each flag is
+    run on the input as given and on the reversed input: a comparator that wrongly calls two values
+    equal leaves them in input order, which is wrong in one of the two."""
     numeric = {i for i, o in enumerate(obs) if o[0] in ("int", "float") and len(o) > 1}
-    bump(res, "sort_values_checked", len(strings))
-    head = order[:len(numeric)]
-    stray = [i for i in head if i not in numeric]
-    if stray:
-        missing = [i for i in order[len(numeric):] if i in numeric]
-        tally.add(dict(sig, tag="numeric-set"),
-                  f"[{mode}] sort -nf treats {strings[stray[0]]!r} (typeof {obs[stray[0]][0]}) as a number and "
-                  f"{strings[missing[0]]!r} (typeof {obs[missing[0]][0]}) as a non-number",
-                  {"argv": argv, "stdin": stdin[:4000], "stray": [strings[i] for i in stray[:10]],
-                   "missing": [strings[i] for i in missing[:10]]})
-        return
-    prev = None
-    for i in head:
-        v = float(obs[i][1])
-        if prev is not None and v < prev[0]:
-            tally.add(dict(sig, tag="order"),
-                      f"[{mode}] sort -nf puts {strings[prev[1]]!r} (value {prev[0]!r}) before {strings[i]!r} (value {v!r})",
-                      {"argv": argv, "pair": [strings[prev[1]], strings[i]]})
-            return
-        prev = (v, i)
+    # exact int order is not demanded across a float of the same double value (a float compares
+    # equal, as a double, to both ints: the order is then not a total one and the docs do not say more)
+    bridges = {float(o[1]) for o in obs if o[0] == "float" and len(o) > 1}
+    for flag, rev in (SORT_VARIANTS[:2] if lite else SORT_VARIANTS):
+        idx = list(range(len(strings)))
+        if rev:
+            idx.reverse()
+        stdin = "".join("n" + RS + str(i) + US + "x" + RS + strings[i] + "\n" for i in idx)
+        argv = G.MODE_FLAGS[mode] + ["--idkvp", "--ifs", "ascii_us", "--ips", "ascii_rs"] + OSEP + \
+            ["sort", flag, "x", "then", "cut", "-f", "n"]
+        r = R.mlr(argv, stdin=stdin, cpu_s=60, watchdog=180.0)
+        if r.verdict == "slow":
+            res["inconc"] += 1
+            continue
+        sig = {"kind": "channels-disagree", "channel": "sort" + flag, "mode": mode, "carrier": "dkvp"}
+        if r.verdict in HANG_VERDICTS:
+            tally.add(dict(sig, kind="hang", tag=r.verdict),
+                      f"[{mode}] sort {flag} x hangs ({r.verdict}) on {len(strings)} records",
+                      {"argv": argv, "stdin": stdin[:4000], "got": r.brief(400)})
+            continue
+        try:
+            order = [int(l.partition(RS)[2]) for l in r.out.split("\n") if l]
+        except ValueError:
+            order = None
+        if not r.ok or order is None or sorted(order) != list(range(len(strings))):
+            tally.add(dict(sig, tag="not-a-permutation"),
+                      f"[{mode}] sort {flag} x did not return a permutation of its input",
+                      {"argv": argv, "stdin": stdin[:4000], "got": r.brief(400)})
+            continue
+        bump(res, "sort_values_checked", len(strings))
+        desc = flag == "-nr"
+        nn = len(strings) - len(numeric)
+        block = order[nn:] if desc else order[:len(numeric)]
+        rest = order[:nn] if desc else order[len(numeric):]
+        stray = [i for i in block if i not in numeric]
+        if stray:
+            missing = [i for i in rest if i in numeric]
+            tally.add(dict(sig, tag="numeric-set"),
+                      f"[{mode}] sort {flag} treats {strings[stray[0]]!r} (typeof {obs[stray[0]][0]}) as a number and "
+                      f"{strings[missing[0]]!r} (typeof {obs[missing[0]][0]}) as a non-number",
+                      {"argv": argv, "stdin": stdin[:4000], "stray": [strings[i] for i in stray[:10]],
+                       "missing": [strings[i] for i in missing[:10]]})
+            continue
+        prev = None
+        for i in block:
+            o = obs[i]
+            if prev is not None:
+                lo, hi = (o, obs[prev]) if desc else (obs[prev], o)       # required: lo <= hi
+                if num_gt(lo, hi):
+                    both_int = lo[0] == "int" and hi[0] == "int"
+                    if both_int and float(lo[1]) == float(hi[1]) and float(lo[1]) in bridges:
+                        bump(res, "sort_int_pairs_not_judged_float_of_same_double_in_batch")
+                    else:
+                        pair = [strings[prev], strings[i]]
+                        first = [j for j in idx if j in (prev, i)]               # the two, in input order
+                        tally.add(dict(sig, tag="order", cmp="int-int" if both_int else "as-double",
+                                       same_double=bool(float(lo[1]) == float(hi[1]))),
+                                  f"[{mode}] sort {flag} x puts {pair[0]!r} ({render(obs[prev])}) before "
+                                  f"{pair[1]!r} ({render(o)})",
+                                  {"argv": argv,
+                                   "stdin": "".join("n" + RS + str(j) + US + "x" + RS + strings[j] + "\n" for j in first),
+                                   "note": "stdin = the two records in their input order; found in a batch of %d "
+                                           "records, input %s" % (len(strings), "reversed" if rev else "as generated"),
+                                   "output_order": pair})
+                        break
+                elif o[0] == "int" and obs[prev][0] == "int" and o[1] != obs[prev][1] and \
+                        float(o[1]) == float(obs[prev][1]):
+                    bump(res, "sort_adjacent_distinct_ints_of_same_double_in_right_order")
+            prev = i
 
 
 # ------------------------------------------------------------------------------------------
@@ -447,7 +589,7 @@ def dsl_eval(lits, res, tally, pairs, depth=0):
     if out is not None:
         pairs.extend(zip(lits, out))
         return
-    if r.verdict in ("slow", "deadlock"):
+    if r.verdict == "slow":
         res["inconc"] += len(lits)
         return
     if len(lits) > 1:
@@ -456,18 +598,35 @@ def dsl_eval(lits, res, tally, pairs, depth=0):
         dsl_eval(lits[mid:], res, tally, pairs, depth + 1)
         return
     s = lits[0]
-    if "cannot parse DSL expression" in r.err and not r.crashed():
-        res["skipped"] += 1                      # the DSL token grammar is not part of this property
+    tag = G.classify(s)[1]
+    argv1 = ["-n", "put", f"end{{print typeof({s})}}"]
+    if "cannot parse DSL expression" in r.err and not r.crashed() and r.verdict == "exited":
+        # RE_DSL_LITERAL admits only spellings the documentation promises for numbers ("Type inference for
+        # literal and record data"; reference-main-arithmetic.md lists the 0x 0o 0b prefixes): a parser that
+        # does not accept one of them is a defect of this property, not a skip
         bump(res, "dsl_literals_rejected_by_parser")
-        ex = res["stats"].setdefault("dsl_rejected_examples", [])
-        if len(s) <= 8 and len(ex) < 12:
-            ex.append(s)
+        tally.add({"kind": "dsl-literal-rejected", "mode": "default", "carrier": "dsl", "tag": tag,
+                   "form": dsl_form(s)},
+                  f"[DSL literal] the parser rejects the documented number spelling {s}: "
+                  f"{(r.err.strip().splitlines() or ['?'])[-1][:200]}",
+                  {"argv": argv1, "got": r.brief(300)})
         return
-    tally.add({"kind": "crash" if r.crashed() else "abort", "mode": "default", "carrier": "dsl",
-               "tag": G.classify(s)[1]},
-              f"[DSL literal] mlr dies evaluating the number literal {s}: "
+    hang = r.verdict in HANG_VERDICTS
+    tally.add({"kind": "hang" if hang else ("crash" if r.crashed() else "abort"), "mode": "default", "carrier": "dsl",
+               "tag": tag},
+              f"[DSL literal] mlr {'hangs (' + r.verdict + ')' if hang else 'dies'} evaluating the number literal {s}: "
               f"{(r.err.strip().splitlines() or ['rc=%s' % r.rc])[0][:200]}",
-              {"argv": ["-n", "put", f"end{{print typeof({s})}}"], "got": r.brief(300)})
+              {"argv": argv1, "got": r.brief(300)})
+
+
+def dsl_form(s):
+    if s[:2] in ("0x", "0b", "0o"):
+        return s[:2]
+    if s.startswith("."):
+        return "leading-point"
+    if "." in s and (s.endswith(".") or s[s.index(".") + 1] in "eE"):
+        return "trailing-point"
+    return "float" if any(c in s for c in ".eE") else "decimal"
 
 
 def w_dsl(case):
@@ -475,22 +634,32 @@ def w_dsl(case):
     strings = list(dict.fromkeys(strings))
     res = case_result("c06:" + hashlib.sha1(repr(case).encode()).hexdigest()[:16])
     tally = Tally(res)
-    # scheduling only: literals that may stop a whole program (beyond 64 bits / double range, and the
-    # 0b form, which this parser does not lex) are evaluated in processes of their own; at most 4
-    # binary literals per case are tried, the rest are counted as skipped
-    binary = [s for s in strings if s[:2] in ("0b", "0B")]
+    # scheduling only: literals that may stop a whole program (beyond 64 bits / double range) are
+    # evaluated in processes of their own, and the 0b form (which this parser does not lex today) in a
+    # program of its own, so that neither makes the bulk program be halved down
+    binary = [s for s in strings if s[:2] == "0b"]
     risky = [s for s in strings if s not in binary and G.classify(s)[1] in RISKY_TAGS]
     safe = [s for s in strings if s not in binary and s not in risky]
-    if len(binary) > 4:
-        res["skipped"] += len(binary) - 4
-        bump(res, "dsl_binary_literals_not_run", len(binary) - 4)
-        binary = binary[:4]
     pairs = []
     dsl_eval(safe, res, tally, pairs)
-    for s in risky[:60] + binary:
-        dsl_eval([s], res, tally, pairs)
-    if len(risky) > 60:
-        res["skipped"] += len(risky) - 60
+    out, r = dsl_observe(binary) if binary else ([], None)
+    if out is not None:
+        pairs.extend(zip(binary, out))
+    else:
+        # the program of 0b literals fails: one literal per grammar category (and the four shortest) alone;
+        # when the parser rejects every one of those, the remaining ones are not run one by one
+        reps = list(dict.fromkeys([next(s for s in binary if G.classify(s)[1] == t)
+                                   for t in sorted({G.classify(s)[1] for s in binary})] + sorted(binary, key=len)[:4]))
+        before = res["stats"].get("dsl_literals_rejected_by_parser", 0)
+        for s in reps:
+            dsl_eval([s], res, tally, pairs)
+        rest = [s for s in binary if s not in reps]
+        if res["stats"].get("dsl_literals_rejected_by_parser", 0) - before == len(reps):
+            res["skipped"] += len(rest)
+            bump(res, "dsl_binary_literals_not_run_one_by_one", len(rest))
+        else:
+            dsl_eval(rest, res, tally, pairs)
+    dsl_eval(risky, res, tally, pairs)               # in one program; halved down only if it fails
     ntk = []
     for s, o in pairs:
         exp, tag = G.classify(s, "default")
@@ -625,6 +794,70 @@ def boundary_strings():
     return uniq
 
 
+STRUCT_SIGNS = ("", "+", "-")
+STRUCT_HEADS = ("0x", "0X", "0b", "0B", "0o", "0O", "0x8", "0xf", "0", "00", "1", "9", ".", "0.", "1.", "1e", "1E", "1e-",
+                "1e+", ".e", "e", "0e", "1.e", "0x1", "-", "+")
+
+
+def struct_strings():
+    """sign x head x every tail of length <= 2 over the core alphabet: the signed prefixed numerals,
+    signed exponents and prefix + two digits that the short exhaustive enumeration does not reach."""
+    tails = [""] + list(CORE20) + [a + b for a in CORE20 for b in CORE20]
+    out = [sg + h + t for sg in STRUCT_SIGNS for h in STRUCT_HEADS for t in tails]
+    return list(dict.fromkeys(out))
+
+
+SORTINT_SIZES = (2, 3, 5, 8, 11, 12, 13, 20, 49, 50, 51, 100, 499, 500, 501, 1200)
+
+
+def spell_int(rng, v, mode):
+    """One of the documented spellings of the int64 value v (decimal, +decimal, 0x incl. the
+    16-digit two's-complement form, 0o, 0b, signed prefixed forms; a 0-prefixed octal under -O)."""
+    forms = [str(v), str(v)]
+    m = -v if v < 0 else v
+    sg = "-" if v < 0 else rng.choice(["", "", "+"])
+    if v >= 0:
+        forms.append("+" + str(v))
+    if m < (1 << 63):
+        forms += [sg + "0x%x" % m, sg + "0X%X" % m, sg + "0o%o" % m, sg + "0b" + bin(m)[2:]]
+        if mode == "O":
+            forms.append(sg + "0%o" % m)
+    if v < 0:
+        forms += ["0x%016x" % (v + (1 << 64))] * 2
+    return rng.choice(forms)
+
+
+def sortint_strings(case):
+    """Values that typeof and arithmetic call int, most of them in clusters of DISTINCT ints that
+    share one float64 (beyond 2^53, up to the int64 limits), a few small ints, floats of small
+    magnitude (they cannot equal the double of two distinct ints) and non-numbers, shuffled."""
+    rng = random.Random(case["seed"])
+    n, mode = case["n"], case["mode"]
+    lo, hi = G.MIN, G.MAX
+    centers = [1 << 53, -(1 << 53), (1 << 53) + (1 << 20), 1 << 54, 1 << 55, 1 << 60, 1 << 62, -(1 << 62), hi, lo,
+               hi - 1024, lo + 1024, rng.getrandbits(62) + (1 << 61), -(rng.getrandbits(62) + (1 << 61))]
+    my = rng.sample(centers, rng.choice([1, 1, 2, 3]))
+    vals = []
+    n_other = 0 if n < 8 else rng.choice([0, 0, n // 8])
+    while len(vals) < n - n_other:
+        k = rng.random()
+        if k < 0.1:
+            v = rng.randint(-100, 100)
+        elif k < 0.2:
+            v = rng.randint(-(1 << 53), 1 << 53)
+        else:
+            w = rng.choice([1, 2, 3, 8, 8, 64, 600, 5000])
+            v = rng.choice(my) + rng.randint(-w, w)
+        vals.append(min(hi, max(lo, v)))
+    out = [spell_int(rng, v, mode) for v in vals]
+    for _ in range(n_other):
+        out.append(rng.choice(["", "abc", "-", "0x", "1_000", "1.5", "-2.25e3", "0.1", "1e15", "-.5", "4503599627370496.5"]))
+    # keep only spellings with ONE documented reading
+    out = [s for s in out if len(G.classify(s, mode)[0]) == 1]
+    rng.shuffle(out)
+    return out
+
+
 def make_strings(case):
     src = case["src"]
     if src == "enum":
@@ -640,6 +873,10 @@ def make_strings(case):
         return [near_miss(rng) if rng.random() < 0.8 else valid_numeral(rng) for _ in range(case["n"])]
     if src == "boundary":
         return boundary_strings()
+    if src == "struct":
+        return struct_strings()
+    if src == "sortint":
+        return sortint_strings(case)
     raise KeyError(src)
 
 
@@ -652,8 +889,11 @@ def w_batch(case):
     n0 = len(strings)
     strings = [s for s in strings if carrier_ok(carrier, s)]
     res = case_result("c06:" + hashlib.sha1(repr(case).encode()).hexdigest()[:16])
-    if carrier != "jsonnum":
+    if carrier in ("dkvp", "csv", "jsonstr"):
         res["skipped"] += n0 - len(strings)
+    elif n0 > len(strings):
+        # number-token and cell carriers: the other strings cannot be written in the carrier at all
+        bump(res, "not_expressible_in_carrier:" + carrier, n0 - len(strings))
     tally = Tally(res)
     if not strings:
         res["evals"] = 0
@@ -680,19 +920,28 @@ def run(chk):
 
     chk.rule = (
         "cases = (string, inference mode, carrier). Strings: (enum) EXHAUSTIVE enumeration of every string of "
-        "length <= %s over the 31-symbol alphabet [0-9 + - . a-f A-F x X o O _ space]%s; (near) seeded "
+        "length <= %s over the 31-symbol alphabet [0-9 + - . a-f A-F x X o O _ space]%s; (struct) EXHAUSTIVE "
+        "product sign {'', +, -} x %d heads (0x 0X 0b 0B 0o 0O 0x8 0xf 0 00 1 9 . 0. 1. 1e 1E 1e- 1e+ .e e 0e 1.e 0x1 - +) "
+        "x every tail of length <= 2 over the 20-symbol core alphabet [%s] (%d strings: the signed prefixed "
+        "numerals, signed exponents and prefix + digits that length <= 3 cannot hold); (near) seeded "
         "grammar-directed near-misses: a valid int / hex / binary / octal / leading-zero / float numeral of length "
         "<= 40 with one or two character edits (insert, delete, replace, transpose; 62 edit characters incl. "
         "separators, quotes, TAB, NUL, non-ASCII digits, NBSP, U+2212); (boundary) %d hand-listed magnitudes and "
         "shapes around 2^31..2^65, 2^100, 1e308, denormals, 17+ digit mantissas, exact halfway decimals, 400-digit "
         "ints, inf/nan/true words, dangling signs/points/exponents/prefixes, in decimal/hex/binary/octal with "
-        "signs. Modes default, -S, -A, -O. Carriers: DKVP field (all channels incl. asserting_* and sort -nf), "
-        "quoted CSV field, JSON string, JSON number token (strings that are RFC-8259 numbers), DSL literal "
-        "(default mode, unsigned literal forms the docs use). One evaluation = one classified (string, mode, "
-        "carrier). A string is non-trivial when it mixes at least two of the classes {sign, digit, prefix letter "
-        "xXoObB, point/exponent . e E}; distinct by string (modes and carriers are not counted as distinct)."
+        "signs; (sortint) seeded shuffled batches of %s records (sizes around the sort cut-offs 12 / 50 and the "
+        "500-record batch) of int-typed values in every documented spelling, clustered so that distinct ints share "
+        "one float64 (2^53 .. 2^63-1, -2^63 ..), with a few small floats and non-numbers, default and -O. "
+        "Modes default, -S, -A, -O. Carriers: DKVP field (all channels incl. asserting_* in both directions and sort "
+        "-nf / -nr on the input as given and reversed), quoted CSV field, unquoted CSV / TSV / NIDX / XTAB / PPRINT / "
+        "markdown cell, JSON string, JSON number token (strings that are RFC-8259 numbers) at top level and nested "
+        "in arrays and maps, DSL literal (default mode, unsigned literal forms). Each observation channel of the put "
+        "reads its own copy of the text. One evaluation = one classified (string, mode, carrier). A string is "
+        "non-trivial when it mixes at least two of the classes {sign, digit, prefix letter xXoObB, point/exponent "
+        ". e E}; distinct by string (modes and carriers are not counted as distinct)."
         % ((("3", "") if quick else ("4", " and of length 5 over the 20-symbol core alphabet [%s]" % CORE20))
-           + (len(boundary_strings()),)))
+           + (len(STRUCT_HEADS), CORE20, len(struct_strings()), len(boundary_strings()),
+              "/".join(str(n) for n in SORTINT_SIZES))))
     chk.assumptions = [
         "Grammar (reference-main-arithmetic.md 'Input scanning', reference-main-data-types.md, property statement): "
         "[+-]?digits = int unless it has a leading zero (then string; -O: octal int when all digits are 0-7); "
@@ -709,13 +958,28 @@ def run(chk):
         "magnitude exceeds the double range, e.g. 1e400 (float Inf, or string as for the word 'Inf').",
         "-A: the value is float(int value); the text re-rendering of such a value ($x . \"\") is not compared.",
         "JSON strings are never inferred (string, or empty for \"\"); JSON number tokens are restricted to RFC-8259 "
-        "numbers; CSV values are always double-quoted (documented not to affect inference); values containing "
-        "CR/LF (and, for DKVP, the US/RS separator bytes) are skipped - C01 owns those.",
-        "DSL literals: only unsigned forms the documentation itself writes (7, 8.9, 1e5, 0xff, 0b1011, 0o377), "
-        "default mode only (-S/-A/-O are documented for data files); a literal the parser rejects is skipped.",
-        "sort -nf: numbers (as typeof sees them) must come first in non-decreasing order compared as doubles, "
-        "everything else after them (sort --help: 'nulls sort last'; sorting.md: 'numbers numerically, then "
-        "strings'); order among non-numbers is C09's subject.",
+        "numbers (top level, and inside arrays / nested maps); quoted CSV values are documented not to affect "
+        "inference; values containing CR/LF (and, for DKVP, the US/RS separator bytes) are skipped - C01 owns those.",
+        "Cell carriers are restricted to what the format can hold as one bare cell (C01 owns the encodings): unquoted "
+        "CSV without comma / double quote; TSV without TAB / backslash; NIDX and PPRINT non-empty without space / TAB "
+        "(PPRINT also without '|' and not the lone '-', that format's own marker for an empty cell); XTAB and markdown "
+        "non-empty without edge blanks (markdown without '|' and not made of '-' ':' only, its alignment row). DCF, "
+        "recutils and YAML are not used: file-formats.md shows DCF 'Version: 1.0' read as the string \"1.0\", i.e. no "
+        "number inference is promised there.",
+        "DSL literals: unsigned, no leading zero, lower-case prefixes: 7, 8.9, 1e5, 0xff, 0b1011, 0o377 and the bare-point "
+        "float spellings 5. / .5 (reference-main-data-types.md 'Type inference for literal and record data' promises "
+        "the same scan for data files and 'DSL expressions you key in'; reference-main-arithmetic.md lists the 0x 0o 0b "
+        "prefixes), default mode only (-S/-A/-O are documented for data files). A literal of that set which the "
+        "parser rejects is a violation (kind dsl-literal-rejected), not a skip.",
+        "sort -nf: numbers (as typeof sees them) must come first in non-decreasing order, everything else after them "
+        "(sort --help: 'nulls sort last'; sorting.md: 'numbers numerically, then strings'); sort -nr: the mirror image "
+        "('nulls sort first'). Two ints are compared exactly - the property makes sort -n agree with the one "
+        "classification, for which 2^63-1 and 2^63-2 are distinct ints; an int and a float, or two floats, as doubles. "
+        "The exact order of two ints is not demanded when the batch holds a float of the same double value (it equals "
+        "both as a double; counted under 'sort_int_pairs_not_judged_float_of_same_double_in_batch'). Equal values may "
+        "come in any order; order among non-numbers is C09's subject.",
+        "A process that stalls (deadlock / CPU cap / output cap) on a finite batch is bisected to one string and "
+        "reported (kind hang); only a watchdog 'slow' verdict is inconclusive.",
         "$x + 0 of the empty string is not compared (C08's subject).",
     ]
 
@@ -726,24 +990,39 @@ def run(chk):
         for mode in modes:
             cases.append({"src": "enum", "alpha": ALPHA31, "L": 3, "upto": True, "mode": mode, "carrier": "dkvp",
                           "sort": True, "asserting": True})
-            for carrier in ("csv", "jsonstr", "jsonnum"):
+            for carrier in SECONDARY:
                 cases.append({"src": "enum", "alpha": ALPHA31, "L": 3, "upto": True, "mode": mode, "carrier": carrier})
+            for ci, carrier in enumerate(MORE_CARRIERS):
+                # quick: a systematic third of the strings per cell-type carrier (the phase rotates with carrier and mode)
+                cases.append(dict({"src": "enum", "alpha": ALPHA31, "L": 3, "upto": True, "mode": mode, "carrier": carrier},
+                                  **({"every": 3, "phase": (ci + modes.index(mode)) % 3}
+                                     if quick and carrier != "jsonnest" else {})))
         if not quick:
             for mode in modes:
                 for ch in ALPHA31:
                     cases.append({"src": "enum", "alpha": ALPHA31, "L": 4, "prefix": ch, "mode": mode, "carrier": "dkvp",
-                                  "sort": mode in ("default", "O"), "asserting": mode == "default"})
-                    for ci, carrier in enumerate(("csv", "jsonstr")):
+                                  "sort": (mode in ("default", "O")) and "lite", "asserting": mode == "default"})
+                    for ci, carrier in enumerate(("csv", "jsonstr") + MORE_CARRIERS[:-1]):
                         cases.append({"src": "enum", "alpha": ALPHA31, "L": 4, "prefix": ch, "mode": mode,
                                       "carrier": carrier, "every": 10, "phase": ci})
-                    cases.append({"src": "enum", "alpha": ALPHA31, "L": 4, "prefix": ch, "mode": mode, "carrier": "jsonnum"})
+                    for carrier in ("jsonnum", "jsonnest"):
+                        cases.append({"src": "enum", "alpha": ALPHA31, "L": 4, "prefix": ch, "mode": mode, "carrier": carrier})
                 for ch in CORE20:
                     cases.append({"src": "enum", "alpha": CORE20, "L": 5, "prefix": ch, "mode": mode, "carrier": "dkvp",
-                                  "sort": mode == "default"})
-                    for ci, carrier in enumerate(("csv", "jsonstr")):
+                                  "sort": (mode == "default") and "lite"})
+                    for ci, carrier in enumerate(("csv", "jsonstr") + MORE_CARRIERS[:-1]):
                         cases.append({"src": "enum", "alpha": CORE20, "L": 5, "prefix": ch, "mode": mode,
-                                      "carrier": carrier, "every": 10, "phase": 3 + ci})
-                    cases.append({"src": "enum", "alpha": CORE20, "L": 5, "prefix": ch, "mode": mode, "carrier": "jsonnum"})
+                                      "carrier": carrier, "every": 10, "phase": (3 + ci) % 10})
+                    for carrier in ("jsonnum", "jsonnest"):
+                        cases.append({"src": "enum", "alpha": CORE20, "L": 5, "prefix": ch, "mode": mode, "carrier": carrier})
+    if want("struct"):
+        for mode in modes:
+            cases.append({"src": "struct", "mode": mode, "carrier": "dkvp", "sort": mode in ("default", "O"),
+                          "asserting": mode == "default"})
+            for ci, carrier in enumerate(SECONDARY + MORE_CARRIERS):
+                cases.append(dict({"src": "struct", "mode": mode, "carrier": carrier},
+                                  **({"every": 3, "phase": (ci + modes.index(mode)) % 3}
+                                     if quick and carrier not in ("jsonnum", "jsonnest") else {})))
     if want("near"):
         nb, per = (1, 5000) if quick else (10, 20000)
         for i in range(nb):
@@ -751,22 +1030,31 @@ def run(chk):
                 cases.append({"src": "near", "seed": f"{seed}/near/{i}", "n": per, "mode": mode, "carrier": "dkvp",
                               "sort": True, "asserting": i == 0})
                 if quick or i == 0:
-                    for carrier in ("csv", "jsonstr", "jsonnum"):
+                    for carrier in SECONDARY + MORE_CARRIERS:
                         cases.append({"src": "near", "seed": f"{seed}/near/{i}", "n": per, "mode": mode, "carrier": carrier})
     if want("boundary"):
         for mode in modes:
-            for carrier in ("dkvp", "csv", "jsonstr", "jsonnum"):
+            for carrier in ("dkvp",) + SECONDARY + MORE_CARRIERS:
                 cases.append({"src": "boundary", "mode": mode, "carrier": carrier,
                               "sort": carrier == "dkvp", "asserting": carrier == "dkvp"})
+    if want("sortint"):
+        # int-only clusters beyond 2^53 in every batch size around the sort routines' small-slice cut-offs
+        # (12, 50) and the 500-record batch; default and -O (under -A the same values ARE floats)
+        for rep in range(2 if quick else 12):
+            for n in SORTINT_SIZES:
+                for mode in ("default", "O"):
+                    cases.append({"src": "sortint", "seed": f"{seed}/sortint/{rep}/{n}/{mode}", "n": n, "mode": mode,
+                                  "carrier": "dkvp", "sort": True})
     # biggest first, so that the pool drains evenly
-    cases.sort(key=lambda c: -(len(c["alpha"]) ** (c["L"] - len(c.get("prefix", ""))) if c["src"] == "enum" else c.get("n", 500)))
+    cases.sort(key=lambda c: -(len(c["alpha"]) ** (c["L"] - len(c.get("prefix", ""))) if c["src"] == "enum" else
+                               (20000 if c["src"] == "struct" else c.get("n", 500))))
     if cases:
         chk.pmap(w_batch, cases, label="data carriers")
     if want("dsl"):
-        dcases = [{"src": "enum", "alpha": ALPHA31, "L": 3, "upto": True}, {"src": "boundary"},
+        dcases = [{"src": "enum", "alpha": ALPHA31, "L": 3, "upto": True}, {"src": "boundary"}, {"src": "struct"},
                   {"src": "near", "seed": f"{seed}/near/0", "n": 5000 if quick else 20000}]
         if not quick:
-            dcases += [{"src": "enum", "alpha": ALPHA31, "L": 4, "prefix": ch} for ch in "0123456789"]
+            dcases += [{"src": "enum", "alpha": ALPHA31, "L": 4, "prefix": ch} for ch in "0123456789."]
         chk.pmap(w_dsl, dcases, label="DSL literals")
 
     st = chk.stats
@@ -780,7 +1068,12 @@ def run(chk):
     chk.extra["carriers_reached"] = sorted({k.split("/")[0] for k in cls})
     chk.extra["modes_reached"] = sorted({k.split("/")[1] for k in cls if "/" in k})
     chk.extra["exhaustive_bound"] = ("all strings of length <= 3 over the 31-symbol alphabet (30784 strings) x 4 modes x "
-                                     "{dkvp, csv, json string}" if quick else
+                                     "{dkvp, csv, json string} (a systematic third on the other cell carriers), plus the "
+                                     "sign x head x tail product (%d strings). Length <= 3 alone holds no signed prefixed "
+                                     "numeral (-0x1), no signed exponent (1e-5) and no sign + 0x + two digits: in this tier "
+                                     "those are covered by the product set and the seeded near-misses only, exhaustively "
+                                     "(length <= 4, and 5 over the core alphabet) in the thorough tier" % len(struct_strings())
+                                     if quick else
                                      "all strings of length <= 4 over the 31-symbol alphabet (954305) and of length 5 over "
                                      "the 20-symbol core alphabet (3200000) x 4 modes on the dkvp carrier")
     chk.exhaustive = bool(want("enum"))
